@@ -17,7 +17,7 @@ Lemma cos_mu_lower a : 1/1024 <= a <= 1/2 -> cos (a + a^3/4) - (1 - a * tan a / 
 Proof. intros H. interval with (i_bisect a, i_taylor a, i_prec 60, i_depth 30). Qed.
 
 Lemma cos_mu_range a : 1/1024 <= a <= 1/2 -> -1 <= 1 - a * tan a / 2 <= 1.
-Proof. intros H. split; interval. Qed.
+Proof. intros H. split; interval with (i_prec 60). Qed.
 
 Theorem phase_advance_bounds a :
   1/1024 <= a <= 1/2 ->
@@ -32,8 +32,8 @@ Proof.
   assert (Hu : c <= cos a) by (pose proof (cos_mu_upper a H); unfold c; lra).
   assert (Hl : cos (a + a^3/4) <= c) by (pose proof (cos_mu_lower a H); unfold c; lra).
   assert (Hmu : 0 <= mu <= PI) by (apply acos_bound).
-  assert (Hpi : 3 < PI) by (pose proof PI_4; interval).
-  assert (Ha3 : 0 <= a^3/4 <= 1/8) by (split; interval).
+  assert (Hpi : 3 < PI) by (interval with (i_prec 60)).
+  assert (Ha3 : 0 <= a^3/4 <= 1/8) by (split; interval with (i_prec 60)).
   repeat split; try assumption.
   - unfold mat_tr, Mstep. cbn [fst snd]. rewrite Hcos. unfold c. cbv [fmul fadd fsub fopp fdiv finv f0 f1 car RF]. field.
   - apply cos_decr_0; lra.
@@ -60,7 +60,7 @@ Qed.
 Lemma sin_cubic phi : Rabs phi <= 1 -> Rabs (sin phi - phi) <= Rabs phi ^ 3 / 6.
 Proof.
   assert (P : forall p, 0 <= p <= 1 -> p - p^3/6 <= sin p <= p).
-  { intros p Hp. assert (Hpi : 3 < PI) by (pose proof PI_4; interval).
+  { intros p Hp. assert (Hpi : 3 < PI) by (interval with (i_prec 60)).
     split.
     - destruct (SIN p) as [L _]; try lra. unfold sin_lb, sin_approx, sum_f_R0, sin_term in L.
       assert (F1 : INR (fact (2 * 0 + 1)) = 1) by (rewrite INR_IZR_INZ; vm_compute Z.of_nat; reflexivity).
